@@ -80,12 +80,19 @@ SpObs(ev, st) ==
   /\ (Bd("boundary") => ev.boundary = AtBoundary(st))
   /\ (Bd("free") => ev.free = SFree(B, st))
 
+\* Where inside its buffer the implementation keeps the bytes is not pinned down by any property: it may reclaim
+\* consumed space earlier than the specification does (which moves bytes only in compress()).  When the logged call
+\* fed more bytes than the specification's layout has room for and "free" is not bound, the specification's layout
+\* is compacted first; the bound that remains is the real one, n <= B - buffered bytes (more would overwrite live data).
+Reclaimed(st, n) == IF n <= SFree(B, st) \/ Bd("free") THEN st ELSE SP_Compress(st)
+
 TraceSParse ==
   /\ IsEvent("sparse") /\ phase = "stream"
   /\ LET ev == Log[l]
-         r == SP_Parse(w, nd, sp, ev.n, ev.dest)
+         sp0 == Reclaimed(sp, ev.n)
+         r == SP_Parse(w, nd, sp0, ev.n, ev.dest)
          newout == SubSeq(r.st.outq, Len(sp.outq) + 1, Len(r.st.outq))
-     IN /\ ev.n <= SFree(B, sp)
+     IN /\ ev.n <= SFree(B, sp0)
         /\ (ev.dest >= 0 => ParsedLen(sp) = 0)
         /\ sp' = r.st
         /\ (Bd("err") => (ev.ok <=> r.err = "") /\ (r.err # "" => ev.err = r.err /\ ev.arg = r.arg))
